@@ -120,9 +120,20 @@ def asan_env(extra=''):
   env = dict(os.environ)
   env['LD_PRELOAD'] = vb.ASAN_RT
   env['ASAN_OPTIONS'] = ('detect_leaks=0:abort_on_error=1:symbolize=0:handle_abort=1:allocator_may_return_null=0:'
-                         'max_allocation_size_mb=2048:detect_stack_use_after_return=0' + extra)
+                         'max_allocation_size_mb=2048:hard_rss_limit_mb=4096:detect_stack_use_after_return=0' + extra)
   env.pop('MUJOCO_LOG_TOPICS', None)
   return env
+
+
+def limit_memory(pid):
+  """rel worker: 4 GB address space (the machine is shared; allocations beyond that fail and are inconclusive) and no
+  core dumps. Set from outside with prlimit so that subprocess can use vfork (a fork of this Python process costs ~1 s)."""
+  import resource
+  try:
+    resource.prlimit(pid, resource.RLIMIT_AS, (4 << 30, 4 << 30))
+    resource.prlimit(pid, resource.RLIMIT_CORE, (0, 0))
+  except (OSError, ValueError):
+    pass
 
 
 class Worker:
@@ -147,6 +158,8 @@ class Worker:
     errf = open(errpath, 'wb')
     p = subprocess.Popen([self.exe, '--vf-worker=%d,%d' % (r1, w2)], pass_fds=(r1, w2), stdin=subprocess.DEVNULL,
                          stdout=errf, stderr=errf, env=env, cwd=self.cwd)
+    if not self.asan:
+      limit_memory(p.pid)
     errf.close()
     os.close(r1)
     os.close(w2)
@@ -245,7 +258,10 @@ class Worker:
       except Exception:
         rc = None
       res.died = True
-      res.report = self._stderr(off)[-30000:] + '\n[worker ended: return code %s]' % rc
+      rep = self._stderr(off)
+      if len(rep) > 40000:       # keep the header and the innermost frames (deep recursion prints hundreds of frames)
+        rep = rep[:30000] + '\n[...]\n' + rep[-6000:]
+      res.report = rep + '\n[worker ended: return code %s]' % rc
       if rc is not None and rc > 0 and 'ERROR: AddressSanitizer' not in res.report and 'VF-ORACLE' not in res.report:
         res.report += '\nfuzz target exited'      # the library called exit(): same wording as libFuzzer, see classify_report
       self._next()
@@ -409,6 +425,7 @@ def classify_report(text):
         if fm:
           frames.append((fm.group(1) or '?', fm.group(2)))
   out['frames'] = frames[:12]
+  frames = frames[:60]
   names = []
   for fn, path in frames:
     if path.startswith(repo + '/') or path.startswith('/repo/'):
@@ -430,6 +447,10 @@ def classify_report(text):
   if out['kind'] == 'stack-overflow' and out['where'] == 'none':
     out['where'] = 'repo'
   key = '|'.join(names[:3])
+  if out['kind'] == 'stack-overflow':
+    # the innermost frames of a runaway recursion are arbitrary: use the functions of the cycle instead
+    cyc = collections.Counter(short_fn(fn) for fn, path in frames if path.startswith(repo + '/') or path.startswith('/repo/'))
+    key = '|'.join(sorted(n for n, c in cyc.most_common(3)))
   out['bucket'] = out['fingerprint'] = 'asan:%s:%s' % (out['kind'], key)
   out['summary'] = '%s in %s' % (out['kind'], ' <- '.join(names[:4]))
   return out
@@ -742,6 +763,10 @@ def handle_common(S, res, xml, origin, info=None):
     return True
   for esc in res.escapes:
     phase, kind, msg, site = esc
+    if kind == 'exception' and re.search(r'bad_alloc|length_error|bad_array_new_length', msg):
+      S.inconclusive['oom-exception'] += 1      # memory exhaustion (huge counts/sizes): inconclusive by design
+      bad = True
+      continue
     what = ('mju_error reached the process-global handler (the default handler exits the process)' if kind == 'mju_error'
             else 'C++ exception propagated out of the C API (std::terminate in a C caller)')
     S.finding(escape_fp(esc), '%s during %s: %s [site %s] (%s)' % (what, phase, msg, site, origin),
@@ -877,13 +902,17 @@ def minimize(doc, keep, pred, budget=40):
 
 
 def part_b(ck, S, g, exe_rel, exe_fuzz):
+  t_b = time.time()
   fast = Worker(exe_rel, False, WD, spares=2)
   slow = Worker(exe_fuzz, True, WD, spares=1)
   stats = collections.Counter()
   per_kind = {k: collections.Counter() for k in gs.KINDS}
 
-  asan_budget = [float(ck.budget(10, 300))]     # seconds of extra ASan executions of sampled documents
+  asan_budget = [float(ck.budget(4, 300))]      # seconds of extra ASan executions of sampled random documents
+  asan_budget_hostile = [float(ck.budget(10, 900))]   # ... of hostile-value documents (rotating start context per seed)
 
+  t_asan = [0.0]
+  t_crash = [0.0]
   rel_sites = {}      # crash site in the rel worker -> (symbolized) ASan report of the first document that died there
   max_reruns = ck.budget(30, 300)
 
@@ -898,10 +927,13 @@ def part_b(ck, S, g, exe_rel, exe_fuzz):
     sig = re.search(r'return code (-?\d+)', report[report.rfind('[worker ended'):])
     return (sig.group(1) if sig else '?',) + tuple(names[:4])
 
-  def run(xml, parse_only, load=False, both=False):
+  def run(xml, parse_only, load=False, both=False, timeout=60, budget=None):
     """Run on the fast (rel) worker. A document that kills its child there is re-run under ASan for a report; the
     re-run is done once per crash site of the rel build (stack printed by the worker's signal handler)."""
-    r = fast.run(xml, load=load, parse_only=parse_only)
+    t0 = time.time()
+    r = fast.run(xml, load=load, parse_only=parse_only, timeout=timeout)
+    if r.died:
+      t_crash[0] += time.time() - t0
     if r.died and not r.timeout:
       stats['rel_child_deaths'] += 1
       site = rel_site(r.report)
@@ -910,7 +942,9 @@ def part_b(ck, S, g, exe_rel, exe_fuzz):
           S.inconclusive['rel-crash-not-rerun'] += 1
           r.timeout = True
           return r
+        t1 = time.time()
         r2 = slow.run(xml, load=load, parse_only=parse_only, timeout=200)
+        t_asan[0] += time.time() - t1
         stats['asan_reruns'] += 1
         if not r2.died:
           S.finding('rel-crash-unreproduced:' + '|'.join(site)[:80],
@@ -924,10 +958,12 @@ def part_b(ck, S, g, exe_rel, exe_fuzz):
         return r
       r.report = rel_sites[site] + '\n[report of the first document that crashed at the same site of the rel build: %s]' % (site,)
       return r
-    if both and asan_budget[0] > 0:
+    budget = budget if budget is not None else asan_budget
+    if both and budget[0] > 0 and not r.died and time.time() - t0 < 0.3:   # (not for documents that are slow even in rel)
       t0 = time.time()
-      r3 = slow.run(xml, load=load, parse_only=False, timeout=200)
-      asan_budget[0] -= time.time() - t0
+      r3 = slow.run(xml, load=load, parse_only=False, timeout=12)
+      budget[0] -= time.time() - t0
+      t_asan[0] += time.time() - t0
       handle_common(S, r3, xml, 'schema-doc/asan')
       stats['asan_runs'] += 1
     return r
@@ -983,17 +1019,26 @@ def part_b(ck, S, g, exe_rel, exe_fuzz):
       return 'real'
     return 'key'
 
-  def hostile_run(d2, what):
+  crashy = collections.Counter()    # (attribute name / element, value) that already crashed twice: same defect, skip
+
+  def hostile_run(d2, what, key, asan=False):
+    if crashy[key] >= 2:
+      hostile_stats['skipped-same-crash'] += 1
+      return
     xml = d2.render()
-    r = run(xml, parse_only=(hostile_stats['docs'] % 4 != 0))
+    r = run(xml, parse_only=(hostile_stats['docs'] % 4 != 0), timeout=2, both=asan, budget=asan_budget_hostile)
     hostile_stats['docs'] += 1
     if handle_common(S, r, xml, 'schema-doc/hostile:' + what):
       hostile_stats['crash-or-escape'] += 1
+      crashy[key] += 1
     ck.case(nontrivial=False, labels=['b1:hostile'])
 
   def hostile_sweep(ctx, doc, node):
     full = not ck.quick
-    for a in ctx.attrs:
+    attrs = list(ctx.attrs)
+    if not full and len(attrs) > 4:
+      attrs = sweep_rng.sample(attrs, 4)
+    for a in attrs:
       vals = HOSTILE[hostile_class(a)]
       if not full:
         vals = [vals[(sweep_rng.randrange(len(vals)))]]
@@ -1005,7 +1050,7 @@ def part_b(ck, S, g, exe_rel, exe_fuzz):
         d2, memo = doc.clone()
         n = a.arity.lo if a.type in ('double', 'float', 'int') and v != LONGLIST else 1
         memo[id(node)].set(a.name, ' '.join([v] * max(1, n)))
-        hostile_run(d2, '%s.%s' % (ctx.elemkey(), a.name))
+        hostile_run(d2, '%s.%s' % (ctx.elemkey(), a.name), (a.name, v[:20]))
     # all attributes of one class at once (sizes that overflow when multiplied, size/data pairs, ...)
     for cls, v in (('int', '-1'), ('int', '65536'), ('int', '2147483647'), ('real', '1e308'), ('real', 'nan')):
       tg = [a for a in ctx.attrs if hostile_class(a) == cls]
@@ -1018,11 +1063,12 @@ def part_b(ck, S, g, exe_rel, exe_fuzz):
       for a in ctx.attrs:
         if a.type == 'string' and cls == 'int':
           n2.set(a.name, LONGLIST)
-      hostile_run(d2, '%s.all-%s=%s' % (ctx.elemkey(), cls, v))
+      hostile_run(d2, '%s.all-%s=%s' % (ctx.elemkey(), cls, v), (ctx.name, cls, v), asan=True)
 
   sweep_rng = random.Random(ck.seed * 31 + 5)
   nsweep = 0
-  for ctx in g.ctx_list:
+  rot = (ck.seed * 97) % len(g.ctx_list)
+  for ctx in g.ctx_list[rot:] + g.ctx_list[:rot]:
     if ctx is g.root:
       continue
     for mode in ('pure', 'recipe'):     # required attributes only; if that is rejected semantically: with gen_schema.RECIPES
@@ -1078,14 +1124,22 @@ def part_b(ck, S, g, exe_rel, exe_fuzz):
       conforming_verdict(d2, r1, xml, labels, 'attribute %s added to a minimal %s' % (a.name, ctx.key))
       ck.case(nontrivial=False, labels=labels)
   stats['b0_documents'] = nsweep
+  stats['t_sweeps_s'] = round(time.time() - t_b, 1)
   stats['b1_hostile_documents'] = hostile_stats['docs']
   stats['b1_hostile_crash_or_escape'] = hostile_stats['crash-or-escape']
+  stats['b1_hostile_skipped_same_crash'] = hostile_stats['skipped-same-crash']
 
   # ---- order of violation tests: every site of the small kinds once, then samples of the big kinds
   order_rng = random.Random(ck.seed)
   sweep = [s for k in gs.KINDS if k not in BIG_KINDS for s in g.sites[k]]
+  nsites_small = len(sweep)
+  if ck.quick:
+    # quick tier: one of the two unknown-child variants per context, 60% of the enum/bool keyword sites; everything else
+    # (unknown attributes, duplicated ? children, required attributes, presence constraints, facets) completely
+    sweep = [s for s in sweep if not (s.kind == 'unknown_child' and (s.detail == 'foreign') == (order_rng.random() < 0.5))]
+    sweep = [s for s in sweep if not (s.kind in ('bad_enum', 'bad_bool') and order_rng.random() < 0.4)]
   order_rng.shuffle(sweep)
-  nbig = ck.budget(900, 12000)
+  nbig = ck.budget(450, 12000)
   big = []
   for k in BIG_KINDS:
     sites = list(g.sites[k])
@@ -1094,7 +1148,7 @@ def part_b(ck, S, g, exe_rel, exe_fuzz):
   plan = sweep + big
   if not ck.quick:
     plan = plan + sweep + sweep      # three different base documents per small-kind site
-  ck.extra['plan'] = dict(small_kind_sites_enumerated=len(sweep), big_kind_sites_sampled=len(big), total=len(plan))
+  ck.extra['plan'] = dict(small_kind_sites=nsites_small, small_kind_sites_enumerated=len(sweep), big_kind_sites_sampled=len(big), total=len(plan))
   pos = [0]
 
   def test(seed):
@@ -1109,7 +1163,7 @@ def part_b(ck, S, g, exe_rel, exe_fuzz):
       raise RuntimeError('gen_schema produced a non-conforming base document: %s\n%s' % (errs, doc.render()))
     base_xml = doc.render()
     want_compile = (i % 10 == 0) or site.kind == 'out_of_range'
-    rb = run(base_xml, parse_only=not want_compile, load=(i % 10 == 0), both=(i % 12 == 0))
+    rb = run(base_xml, parse_only=not want_compile, load=(i % 10 == 0), both=(i % 25 == 0))
     stats['base_docs'] += 1
     labels = []
     base_bad = handle_common(S, rb, base_xml, 'schema-doc/conforming')
@@ -1130,7 +1184,7 @@ def part_b(ck, S, g, exe_rel, exe_fuzz):
     if not info['errors']:
       raise RuntimeError('gen_schema: injected violation %s is not seen by the reference validator\n%s' % (info, vdoc.render()))
     vx = vdoc.render()
-    rv = run(vx, parse_only=True, both=(i % 12 == 6))
+    rv = run(vx, parse_only=True, both=(i % 50 == 7))
     stats['violation_docs'] += 1
     kind = site.kind
     per_kind[kind]['tried'] += 1
@@ -1164,6 +1218,8 @@ def part_b(ck, S, g, exe_rel, exe_fuzz):
         else:
           d = info['detail'] or ''
           attr = re.split(r'[=: ]', str(d))[0]
+          if kind in ('exclusive', 'together', 'requires', 'oneof', 'variant'):
+            attr = re.sub(r'[^A-Za-z0-9_]+', '_', str(d))[:40]
           fp = 'accepted:%s:%s.%s' % (kind, site.ctx.elemkey(), attr)
         rep = vdoc
         if ck.known(fp) is None and fp not in S.findings and S.minimized < 12:
@@ -1191,6 +1247,9 @@ def part_b(ck, S, g, exe_rel, exe_fuzz):
   ck.run_hypothesis(test, st.integers(0, 2 ** 32 - 1), n, name='schema-docs', shrink=False)
   fast.stop()
   slow.stop()
+  stats['t_total_s'] = round(time.time() - t_b, 1)
+  stats['t_asan_s'] = round(t_asan[0], 1)
+  stats['t_rel_crash_s'] = round(t_crash[0], 1)
   ck.extra['schema_docs'] = dict(stats)
   ck.extra['per_kind'] = {k: dict(v) for k, v in per_kind.items() if v}
   ck.extra['worker_starts'] = dict(rel=fast.starts, asan=slow.starts)
